@@ -286,6 +286,7 @@ func (t *FnTrans) edge(from, to *ssa.BasicBlock, cond string, st *HeapState) {
 				}
 			}
 			env := t.pointEnv(to, t.firstNonPhi(to), st.clone(), subst)
+			env.guard = cond
 			for _, c := range li.spec.Invariants {
 				lbl := c.Label
 				if lbl == "" {
@@ -863,6 +864,9 @@ func (t *FnTrans) returnInstr(x *ssa.Return, st *HeapState, reach string, b *ssa
 	}
 	env := t.entryEnv(st.clone())
 	env.old = t.entryEnv(t.entry0)
+	// facts introduced while reading the state at this return (type ranges of
+	// loaded values) hold on the paths that reach it, not on the others
+	env.guard = reach
 	sig := t.fn.Signature
 	for i, r := range x.Results {
 		v := t.materialize(t.val(r), sig.Results().At(i).Type())
